@@ -46,7 +46,10 @@ Proof.
 Qed.
 
 Lemma last_byte_snoc (l : bytes) x : last_byte (l ++ [x]) = Some x.
-Proof. unfold last_byte. rewrite rev_app_distr. reflexivity. Qed.
+Proof.
+  induction l as [|c l IH]; [reflexivity|]. cbn [app last_byte].
+  destruct (l ++ [x]) eqn:E; [destruct l; discriminate|]. exact IH.
+Qed.
 
 Lemma last_byte_firstn : forall a (s : bytes), (0 < a)%nat -> (a <= length s)%nat ->
   last_byte (firstn a s) = nth_error s (a - 1).
